@@ -188,15 +188,15 @@ func regBlindRSAKey(tag string, key *rsa.PrivateKey, variants []blindVariant, ha
 		if vr.v == blindrsa.SHA384PSSRandomized {
 			// the signer does not depend on the variant: one entry
 			addCorpus("blindrsa"+dot+".Signer.BlindSign", hostileInts...)
-			Register(Entry{Name: "blindrsa" + dot + ".Signer.BlindSign", Group: "blindrsa", Cost: 6,
+			Register(Entry{Name: "blindrsa" + dot + ".Signer.BlindSign", Group: "blindrsa", Moduli: [][]byte{key.N.Bytes()}, Cost: 6,
 				Call:  func(b []byte) { _, _ = signer.BlindSign(b) },
 				Valid: func(int) []byte { return blinded }})
 		}
 		Register(
-			Entry{Name: name + ".Client.Finalize", Group: "blindrsa",
+			Entry{Name: name + ".Client.Finalize", Group: "blindrsa", Moduli: [][]byte{key.N.Bytes()},
 				Call:  func(b []byte) { _, _ = client.Finalize(state, b) },
 				Valid: func(int) []byte { return blindSig }},
-			Entry{Name: name + ".Verifier.Verify", Group: "blindrsa",
+			Entry{Name: name + ".Verifier.Verify", Group: "blindrsa", Moduli: [][]byte{key.N.Bytes()},
 				Call:  func(b []byte) { _ = verifier.Verify(msg, b); _ = client.Verify(msg, b) },
 				Valid: func(int) []byte { return sig }},
 		)
@@ -238,19 +238,19 @@ func regBlindRSAKey(tag string, key *rsa.PrivateKey, variants []blindVariant, ha
 		addCorpus(name+".VerifierState.Finalize", hostileInts...)
 		addCorpus(name+".Verifier.Verify", hostileInts...)
 		Register(
-			Entry{Name: name + ".Signer.BlindSign", Group: "blindrsa", Cost: 12,
+			Entry{Name: name + ".Signer.BlindSign", Group: "blindrsa", Moduli: [][]byte{key.N.Bytes()}, Cost: 12,
 				Call:  func(b []byte) { _, _ = psigner.BlindSign(b, metadata) },
 				Valid: func(int) []byte { return pblinded }},
-			Entry{Name: name + ".Signer.BlindSign(hostile-metadata)", Group: "blindrsa", Cost: 12,
+			Entry{Name: name + ".Signer.BlindSign(hostile-metadata)", Group: "blindrsa", Moduli: [][]byte{key.N.Bytes()}, Cost: 12,
 				Call:  func(b []byte) { _, _ = psigner.BlindSign(pblinded, b) },
 				Valid: func(int) []byte { return metadata }},
-			Entry{Name: name + ".VerifierState.Finalize", Group: "blindrsa", Cost: 3,
+			Entry{Name: name + ".VerifierState.Finalize", Group: "blindrsa", Moduli: [][]byte{key.N.Bytes()}, Cost: 3,
 				Call:  func(b []byte) { _, _ = pstate.Finalize(b) },
 				Valid: func(int) []byte { return pblindSig }},
-			Entry{Name: name + ".Verifier.Verify", Group: "blindrsa", Cost: 3,
+			Entry{Name: name + ".Verifier.Verify", Group: "blindrsa", Moduli: [][]byte{key.N.Bytes()}, Cost: 3,
 				Call:  func(b []byte) { _ = pverifier.Verify(pmsg, metadata, b) },
 				Valid: func(int) []byte { return psig }},
-			Entry{Name: name + ".Verifier.Verify(hostile-metadata)", Group: "blindrsa", Cost: 3,
+			Entry{Name: name + ".Verifier.Verify(hostile-metadata)", Group: "blindrsa", Moduli: [][]byte{key.N.Bytes()}, Cost: 3,
 				Call:  func(b []byte) { _ = pverifier.Verify(pmsg, b, psig) },
 				Valid: func(int) []byte { return metadata }},
 		)
